@@ -58,10 +58,12 @@ class RootDecomposition(Function):
         if ctx.batch_shape is None:
             q_mat = q_mat.unsqueeze(-3)
             t_mat = t_mat.unsqueeze(-3)
-        if t_mat.ndimension() == 3:  # If we only used one probe vector
+        # If we only used one probe vector, lanczos_tridiag returns no probe dimension: add one
+        num_batch_dims = 1 if ctx.batch_shape is None else len(ctx.batch_shape)
+        added_probe_dim = t_mat.ndimension() == num_batch_dims + 2
+        if added_probe_dim:
             q_mat = q_mat.unsqueeze(0)
             t_mat = t_mat.unsqueeze(0)
-        n_probes = t_mat.size(0)
 
         mins = to_linear_operator(t_mat)._diagonal().min(dim=-1, keepdim=True)[0].unsqueeze(-1)
         jitter_mat = (settings.tridiagonal_jitter.value() * mins) * torch.eye(
@@ -90,7 +92,7 @@ class RootDecomposition(Function):
             q_mat = q_mat.squeeze(1)
             root_evals = root_evals.squeeze(1)
             inverse = inverse.squeeze(1) if inverse.numel() else inverse
-        if n_probes == 1:
+        if added_probe_dim:  # (only the dimension added above: a batch or matrix dimension of size 1 stays)
             root = root.squeeze(0) if root.numel() else root
             q_mat = q_mat.squeeze(0)
             root_evals = root_evals.squeeze(0)
